@@ -432,7 +432,11 @@ class Interp(Engine):
         args, kwargs = [], {}
         for a in n.args:
             if isinstance(a, ast.Starred):
-                args.extend(self.iterate_concrete(self.ev(a.value, fr)))
+                sv = self.ev(a.value, fr)
+                if hasattr(sv, "__pyvc_star__"):  # extension sequence of symbolic length: handed to the callee's model as ONE marker argument
+                    args.append(sv.__pyvc_star__(self))
+                else:
+                    args.extend(self.iterate_concrete(sv))
             else:
                 args.append(self.ev(a, fr))
         for kw in n.keywords:
@@ -548,17 +552,21 @@ class Interp(Engine):
             if func.key.endswith("swc_utils/base.py:traverse"):
                 from . import traverse_rule
 
-                return traverse_rule.model(self, args, kwargs, self.cur_frame)
+                return traverse_rule.model(self, args, kwargs, getattr(self, "traverse_client_frame", None) or self.cur_frame)
             if func.key.endswith(":Tree.traverse") or func.key.endswith(":Tree.Node.traverse"):
                 fr = Frame(parent=func.frame, globs=func.globs, func=func)
                 self.bind_params(func, args, kwargs, fr)
                 self.inline_stack.append(func.key)
                 saved = self.cur_frame
+                outer = getattr(self, "traverse_client_frame", None)
+                if outer is None:
+                    self.traverse_client_frame = saved  # the rule's J / modifies speak about the frame of the CLIENT of the wrapper
                 try:
                     return self.run_body(func, fr)
                 finally:
                     self.inline_stack.pop()
                     self.cur_frame = saved
+                    self.traverse_client_frame = outer
         # options["inline_calls"] = [key suffixes]: the carrier's contract asks for these callees to be interpreted from
         # their repository AST (inlined) even though a modular contract exists -- always sound, used where the inputs are
         # concrete enough (fixed topology) for the real code to be executed symbolically
